@@ -708,7 +708,13 @@ func (tt *TermTable) F2I(f *Term, n int, signed bool) *Term {
 	if f.Op == OpConst {
 		return tt.BV(f2iConcrete(f.F, n, signed), n)
 	}
-	nan := tt.FPred(OpFIsNaN, f)
+	return tt.f2iGeneric(f, n, signed)
+}
+
+// f2iGeneric is the un-normalised encoding of the conversion (fp.to_sbv guarded by range checks).
+func (tt *TermTable) f2iGeneric(f *Term, n int, signed bool) *Term {
+	via32 := n < 32 || (n == 32 && signed)
+	nan := tt.mk(OpFIsNaN, SBool, 0, 0, f)
 	if via32 {
 		// in range iff -2^31-1 < f < 2^31
 		in := tt.And(tt.Not(nan), tt.And(tt.mk(OpFLt, SBool, 0, 0, tt.FP(-2147483649.0), f), tt.mk(OpFLt, SBool, 0, 0, f, tt.FP(2147483648.0))))
